@@ -137,6 +137,11 @@ func StartKeygen(group curve.Curve, receiver bool, selfID, otherID party.ID, sec
 			Group:            group,
 		}
 
+		// a refresh is a different protocol than a key generation: its messages must not be accepted by one
+		if !(secretShare == nil && public == nil) {
+			info.ProtocolID = "doerner/refresh"
+		}
+
 		helper, err := round.NewSession(info, sessionID, nil)
 		if err != nil {
 			return nil, fmt.Errorf("keygen.StartKeygen: %w", err)
